@@ -31,9 +31,12 @@ TRUSTED = [
     "IEEE rounding of the implementation (comparisons to 1e-9 relative in float64, 2e-4 where an operation casts to float32)",
 ]
 ASSUMPTIONS = [
-    "coverage of the proof-level tie is the traced families of tools/adfam.py on small tensors; the other listed public operations "
-    "(transform classes, sampling/warping, expv/compose, B-spline evaluation, spatial derivatives, all losses) are covered by the "
-    "implementation-side autograd-vs-central-difference exploration only",
+    "the exact derivative theorem is tied to the traced families of tools/adfam.py on small tensors; for the other listed public operations "
+    "(transform classes, sampling/warping, expv/compose, B-spline evaluation, spatial derivatives, all losses) the logic part is the "
+    "gradient-flow skeleton (no cut on any leaf-to-output path, traced on the real autograd graph at one generic input per operation x D) "
+    "and the numbers are checked by the autograd-vs-central-difference exploration",
+    "gradient-flow skeleton: value dependence is followed through torch-level calls; Python numbers obtained by .item()/float() and integer/"
+    "boolean tensors leave the trace (piecewise-constant dependence); writes through views taken before the write are not propagated to those views",
     "generic inputs: away from interpolation kinks, clamping boundaries, zero denominators; piecewise operations are not modelled at kinks",
     "SpatialTransform.disp() is evaluated after update() (documented protocol; staleness without update() is C09's subject)",
 ]
@@ -189,6 +192,25 @@ def correspondence(ctx):
                              "why": ("forward values" if name == "forward" else "torch.autograd gradients") +
                                     " of the implementation differ from the model's exact evaluation (eval / formal derivative D)",
                              "impl": {"values": res[i]["values"][:6], "jac_row0": res[i]["jac"][0][:6]}})
+    # the gradient-flow skeleton (Gen/GradFlow.v): name the cut sites, so that a broken C20_gradient_flow_skeleton is concrete
+    try:
+        import re
+        txt = open(os.path.join(vlib.COQ, "Gen", "GradFlow.v")).read()
+        nrows = 0
+        for m in re.finditer(r'\("([^"]+)"%string, (\d+)%nat, (true|false), \[(.*)\]\)', txt):
+            nrows += 1
+            opname, D, attached, leaves = m.group(1), m.group(2), m.group(3), m.group(4)
+            sites = sorted(set(re.findall(r'"([^"]+)"%string', leaves)))
+            nodep = re.findall(r'\((\d+)%nat, false,', leaves)
+            if attached == "false" or sites or nodep:
+                failures.append({"why": "gradient-flow skeleton of the traced autograd graph: " +
+                                 ("output not attached to the graph; " if attached == "false" else "") +
+                                 (f"cut (detach/.data/no_grad) on a leaf-to-output path in {sites}; " if sites else "") +
+                                 (f"output value does not depend on leaves {nodep}" if nodep else ""),
+                                 "case": {"operation": opname, "D": int(D)}})
+        dist["gradflow_rows"] = nrows
+    except OSError as exc:
+        failures.append({"why": f"gradient-flow skeleton missing: {exc}"})
     ctx.notes.append(f"correspondence: {len(items)} Coq checks; {n_grad} individual partial derivatives compared with torch.autograd")
     samples = [{"case": cases[i], "impl": {"values": res[i].get("values", [])[:4], "jac_row0": (res[i].get("jac") or [[]])[0][:4]}}
                for i in (0, len(cases) // 2, len(cases) - 1)]
